@@ -20,7 +20,7 @@ CFG = {
                  "differential correspondence vs compiled model with per-input spec cross-check",
     "variants": [{"features": []}],
     "lean_modules": ["SuccinctlyVerif.Props.C21"],
-    "required_theorems": ["SV.Props.C21.append_separator_invariant_partial", "SV.Props.C21.fields_eq_full_refuted"],
+    "required_theorems": ["SV.Props.C21.append_separator_invariant_partial"],
     "lean_files": ["SuccinctlyVerif/Props/C21.lean", "SuccinctlyVerif/Proof/DsvNav.lean", "SuccinctlyVerif/Spec/Dsv.lean", "SuccinctlyVerif/Model/DsvNav.lean"],
     "generated": ["common:"],
     "nontrivial": _c21_nontrivial,
